@@ -148,7 +148,7 @@ func init() {
 	})
 }
 
-var c01Kinds = []string{"string", "bytes", "reader", "scanner", "lenient"}
+var c01Kinds = []string{"string", "bytes", "reader", "scanner", "lenient", "garbage", "func-reader", "slice-reader", "bytes.Buffer"}
 
 // Byte sequences that are not valid UTF-8: a byte that never occurs, a lone
 // continuation byte, truncated two- and three-byte characters, an encoded
@@ -236,7 +236,7 @@ func TestC01(t *testing.T) {
 				if ri == 1 && n < 2 {
 					continue
 				}
-				req := wproto.Req{Op: "parse", Src: src, Kind: c01Kinds[(idx+ri)%len(c01Kinds)], Cmd: idx%7 == 0}
+				req := wproto.Req{Op: "parse", Src: src, Kind: c01Kinds[(idx+ri)%len(c01Kinds)], Cmd: idx%7 == 0, Again: idx%11 == 0}
 				if idx%5 == 0 && !req.Cmd {
 					req.Env = "empty"
 				}
@@ -248,7 +248,7 @@ func TestC01(t *testing.T) {
 		})
 	}
 	st.Exhaustive = true
-	st.Note("exhaustive: all strings of <= %d tokens over the %d-token alphabet, blank-separated and concatenated, source kind rotating over string / []byte / io.Reader / custom RuneScanner / a RuneScanner whose UnreadRune steps back even after a failed read, each under GODEBUG panicnil=0 and panicnil=1, ParseCommands (every 7th: ParseCommand; every 5th: an environment with an empty alias table)", maxn, len(gen.TokenAlphabet))
+	st.Note("exhaustive: all strings of <= %d tokens over the %d-token alphabet, blank-separated and concatenated, source kind rotating over string / []byte / io.Reader / custom RuneScanner / a RuneScanner whose UnreadRune steps back even after a failed read / one that returns a rune together with io.EOF / io.Readers of a func type and of a struct type with a slice field (not comparable) / *bytes.Buffer, every 11th with a second call on the same source object, each under GODEBUG panicnil=0 and panicnil=1, ParseCommands (every 7th: ParseCommand; every 5th: an environment with an empty alias table)", maxn, len(gen.TokenAlphabet))
 
 	// (i-b) byte sequences that are not valid UTF-8, in every kind of context
 	if sh == 0 {
